@@ -46,6 +46,10 @@ inductive Ev where
   | fnm (t : Int) (o fn : Nat) (r : Int)
   /-- `remove_call_out()` (all of `o`) -/
   | rmall (t : Int) (o : Nat)
+  /-- `reload_object(this_object())` by `o` (drops its call_outs, resets its variables) -/
+  | reload (t : Int) (o : Nat)
+  /-- mud_status(): `call out: <num_call> ... (current length <len>)` -/
+  | usage (t : Int) (numCall len : Nat)
   /-- `o` destructs `x` -/
   | dest (t : Int) (o x : Nat)
   /-- `call_out_info()`: sorted rows (owner, fn, time left) -/
@@ -95,6 +99,8 @@ inductive Op where
   | dest (target : Nat)                         -- destruct(target)
   | err                                         -- error("boom")
   | info                                        -- call_out_info()
+  | reload                                      -- reload_object(this_object())
+  | usage                                       -- mud_status(): allocated structures and current length
   deriving Repr, DecidableEq
 
 structure World where
@@ -105,13 +111,16 @@ structure World where
   dead : List Nat                               -- destructed objects
   hmap : List ((Nat × String) × Nat)            -- per object: tag -> handle (LPC variable `handles`)
   giver : Option Nat                            -- command_giver (none = 0)
+  numCall : Nat                                 -- num_call: allocated pending_call_t structures
+  busy : Nat                                    -- structures taken out of the wheel and not yet freed (static `cop`)
   out : List Ev                                 -- events, newest first
 
 /-- scripts: what the callback of (owner, tag) does -/
 abbrev Scripts := Nat → String → List Op
 
 def World.init : World :=
-  { slots := fun _ => [], cot := 0, now := T0, unique := 0, dead := [], hmap := [], giver := none, out := [] }
+  { slots := fun _ => [], cot := 0, now := T0, unique := 0, dead := [], hmap := [], giver := none, numCall := 0, busy := 0,
+    out := [] }
 
 def setSlot (w : World) (s : Nat) (l : List Entry) : World :=
   { w with slots := fun i => if i = s then l else w.slots i }
@@ -137,11 +146,18 @@ def insertDelta (l : List Entry) (delay : Int) (c : Call) : List Entry :=
   match l with
   | [] => [{ delta := delay, c := c }]
   | x :: xs =>
-    if x.delta ≥ delay then { delta := delay, c := c } :: { x with delta := x.delta - delay } :: xs
+    if Gen.C10.insertBefore x.delta delay then { delta := delay, c := c } :: { x with delta := x.delta - delay } :: xs
     else x :: insertDelta xs (delay - x.delta) c
 
 /-- C: `(x) & (CALLOUT_CYCLE_SIZE - 1)` -/
 def slotOf (t : Nat) : Nat := t &&& (N - 1)
+
+/-- number of entries pending in the whole wheel (print_call_out_usage: "current length") -/
+def wheelSize (w : World) : Nat := ((List.range N).map (fun i => (w.slots i).length)).sum
+
+/-- `if (!call_list_free)`: every allocated structure is in use (pending or being executed) -> allocate a chunk -/
+def allocCall (w : World) : Nat :=
+  if wheelSize w + w.busy = w.numCall then w.numCall + Gen.C10.chunkSize else w.numCall
 
 /-- new_call_out; returns the handle.  The clamp, the initialisation of `call_out_time`, the slot, the rotation
     count and the handle are the expressions *recovered from the C source* (NV/Gen/C10.lean, props/c10_extract.py),
@@ -156,7 +172,7 @@ def newCallOut (w : World) (owner fn : Nat) (tag : String) (delay : Int) (fp : B
   let c : Call :=
     { serial := uniq, owner := owner, fn := fn, tag := tag, handle := h, due := d + (w.now : Int), fp := fp,
       giver := liveGiver w w.giver }
-  let w1 := { w with cot := cot, unique := uniq }
+  let w1 := { w with cot := cot, unique := uniq, numCall := allocCall w }
   (setSlot w1 tm (insertDelta (w1.slots tm) rot c), h)
 
 /-- time_left(slot, delay): the generated expressions of both branches -/
@@ -205,24 +221,27 @@ def byName (owner fn : Nat) (c : Call) : Bool := !c.fp && c.owner == owner && c.
 /-- remove_call_out(ob, fun): slots are scanned in index order -/
 def removeByName (w : World) (owner fn : Nat) : World × Int :=
   match scanFrom (fun i => removeFirst (byName owner fn) (w.slots i) 0) N 0 with
-  | some (i, r) => (setSlot w i r.2, timeLeft w i r.1)
+  | some (i, r) => (setSlot w i r.2, Gen.C10.efunResult (timeLeft w i r.1))
   | none => (w, -1)
 
 def findByName (w : World) (owner fn : Nat) : Int :=
   match scanFrom (fun i => findFirst (byName owner fn) (w.slots i) 0) N 0 with
-  | some (i, d) => timeLeft w i d
+  | some (i, d) => Gen.C10.efunResult (timeLeft w i d)
   | none => -1
 
+/-- `handle & (CALLOUT_CYCLE_SIZE - 1)` (generated) -/
+def handleSlot (h : Nat) : Nat := (Gen.C10.handleSlotExpr h).toNat
+
 def removeByHandle (w : World) (h : Nat) : World × Int :=
-  let s := slotOf h
+  let s := handleSlot h
   match removeFirst (fun c => c.handle == h) (w.slots s) 0 with
-  | some r => (setSlot w s r.2, timeLeft w s r.1)
+  | some r => (setSlot w s r.2, Gen.C10.efunResult (timeLeft w s r.1))
   | none => (w, -1)
 
 def findByHandle (w : World) (h : Nat) : Int :=
-  let s := slotOf h
+  let s := handleSlot h
   match findFirst (fun c => c.handle == h) (w.slots s) 0 with
-  | some d => timeLeft w s d
+  | some d => Gen.C10.efunResult (timeLeft w s d)
   | none => -1
 
 /-- remove every entry satisfying p from one list, folding its delta into the successor -/
@@ -239,6 +258,11 @@ termination_by l => l.length
 /-- remove_all_call_out(obj): entries of obj and of any destructed object -/
 def removeAll (w : World) (owner : Nat) : World :=
   { w with slots := fun i => removeAllList (fun c => c.owner == owner || w.dead.contains c.owner) (w.slots i) }
+
+/-- reload_object(obj): `remove_all_call_out (obj)`; the object's variables are reset (its `handles` mapping) -/
+def reloadObj (w : World) (self : Nat) : World :=
+  let w := removeAll w self
+  { w with hmap := w.hmap.filter (fun p => p.1.1 != self) }
 
 def lookupHandle (w : World) (owner : Nat) (tag : String) : Nat :=
   match w.hmap.find? (fun p => p.1 == (owner, tag)) with
@@ -307,6 +331,10 @@ def stepOp (w : World) (self : Nat) (op : Op) : StepRes :=
     { w := emit w (.dest (vnow w) self t), stop := (t == self) }
   | .err =>
     { w := emit w (.err self), err := true }
+  | .reload =>
+    { w := emit (reloadObj w self) (.reload (vnow w) self) }
+  | .usage =>
+    { w := emit w (.usage (vnow w) w.numCall (wheelSize w)) }
   | .info =>
     -- the LPC side drops rows whose object has been destructed (function-pointer call_outs of dead owners)
     { w := emit w (.info (vnow w) (sortRows ((infoRows w).filter (fun r => !w.dead.contains r.1)))) }
@@ -327,9 +355,10 @@ def fireOne (sc : Scripts) (w : World) (cop : Entry) : World :=
     if cop.c.fp then emit w .errFpDead else w
   else
     -- command_giver = the saved one unless it has been destructed
-    let w := { w with giver := liveGiver w cop.c.giver }
+    let w := { w with giver := liveGiver w cop.c.giver, busy := 1 }      -- `cop` is out of the chain, not yet freed
     let w := emit w (.fire (vnow w) cop.c.owner cop.c.fn cop.c.tag w.giver)
-    (runOps w cop.c.owner (sc cop.c.owner cop.c.tag)).1
+    let w := (runOps w cop.c.owner (sc cop.c.owner cop.c.tag)).1
+    { w with busy := 0 }                                                  -- free_called_call (cop); cop = 0
 
 /-- the do/while of call_out(): pop heads while their delta is zero -/
 def visit (sc : Scripts) (tm : Nat) : Nat → World → World
@@ -341,7 +370,7 @@ def visit (sc : Scripts) (tm : Nat) : Nat → World → World
       let w := fireOne sc (setSlot w tm rest) cop
       match w.slots tm with
       | [] => w
-      | h :: _ => if h.delta == 0 then visit sc tm fuel w else w
+      | h :: _ => if Gen.C10.nextDue h.delta then visit sc tm fuel w else w
 
 /-- one second of call_out().  The position of `call_out_time++` relative to `tm = ...` and to the visit of the
     slot, and the slot expression, are recovered from the source (fix C10: the increment comes first). -/
@@ -355,7 +384,7 @@ def sweepSecond (sc : Scripts) (w : World) : World :=
     | h :: rest =>
       let h' := { h with delta := h.delta - 1 }
       let w := setSlot w tm (h' :: rest)
-      if h'.delta == 0 then visit sc tm ((w.slots tm).length) w else w
+      if Gen.C10.headDue h.delta then visit sc tm ((w.slots tm).length) w else w
   if Gen.C10.sweepIncBeforeVisit then w else { w with cot := w.cot + 1 }
 
 def sweepLoop (sc : Scripts) : Nat → World → World
